@@ -71,7 +71,8 @@ from modelx.core.cells import (
     UserCellsImpl,
     shareable_parameters,
 )
-from modelx.core.util import AutoNamer, is_valid_name, get_module
+from modelx.core.util import (
+    AutoNamer, is_valid_name, get_module, get_module_funcs)
 
 
 class ParamFunc(Formula):
@@ -1686,14 +1687,7 @@ class UserSpaceImpl(*_user_space_impl_base):
 
         module = get_module(module)
         newcells = {}
-        funcs = {}
-
-        for name in dir(module):
-            func = getattr(module, name)
-            if isinstance(func, FunctionType):
-                # Choose only the functions defined in the module.
-                if func.__module__ == module.__name__:
-                    funcs[name] = func
+        funcs = get_module_funcs(module)
 
         # Validate all the functions before any cells is created or changed
         for name, func in funcs.items():
